@@ -990,6 +990,7 @@ def build_models():
     M["std::convert::num::from"] = m_int_from
     M["std::convert::From::from"] = m_int_from
     M["<std::option::Option<T> as std::cmp::PartialEq>::eq"] = m_eq_top
+    M["std::cmp::PartialEq::ne"] = m_eq_top
     M["std::cmp::impls::<impl std::cmp::PartialEq<&B> for &A>::eq"] = m_eq_top
     M["crc::crc32::<impl crc::Digest<'a, u32, crc::Table<L>>>::finalize"] = m_ret_top
     M["crc::crc32::<impl crc::Digest<'a, u32, crc::Table<L>>>::update"] = m_unit
